@@ -794,6 +794,9 @@ static bool rejection_documented(CompDef const &c, CaseId const &id, std::string
   if (!scalar && (id.k == K_EXP2 || id.k == K_EXP3)) return true;
   // linear restraints are not defined for periodic variables
   if (b == B_LINEAR && why.find("periodic") != std::string::npos) return true;
+  // a variable that is numerically constant around the evaluated geometry (natural scale ~1e-8, e.g. a cubed
+  // groupCoord far from its cutoff) makes the harness place both walls at the same number: the library refuses that
+  if ((b == B_WALL_IN || b == B_WALL_LO || b == B_WALL_UP) && why.find("lower wall and upper wall are equal") != std::string::npos) return true;
   // explicit documented refusals about dummy atoms
   if (id.o == O_DUMMY && why.find("dummy") != std::string::npos) return true;
   return false;
